@@ -11,9 +11,9 @@ def muxFrame (c : MCfg) (aud : Nat → Bytes) (fr : Nat × List Item) (e : List 
   (blSplit c aud fr).1 ++ e ++ (blSplit c aud fr).2
 
 /-- equal frame counts: frame k of the output is BL frame k, EL frame k, held-back EOS/EOB; no error -/
-theorem muxGo_aligned (c : MCfg) (aud : Nat → Bytes) (frs : List (Nat × List Item)) (els : List (List Out))
-    (hlen : frs.length = els.length) (hlast : ∀ fr, frs.getLast? = some fr → blBody c fr.2 ≠ []) :
-    muxGo c aud frs els = ((frs.zip els).flatMap (fun p => muxFrame c aud p.1 p.2), false) := by
+theorem muxGo_aligned (c : MCfg) (aud : Nat → Bytes) (nFrames : Nat) (frs : List (Nat × List Item)) (els : List (List Out))
+    (hlen : frs.length = els.length) (hlast : ∀ fr, frs.getLast? = some fr → fr.1 ≠ nFrames ∧ blBody c fr.2 ≠ []) :
+    muxGo c aud nFrames frs els = ((frs.zip els).flatMap (fun p => muxFrame c aud p.1 p.2), false) := by
   induction frs generalizing els with
   | nil => cases els <;> simp [muxGo] at *
   | cons fr rest ih =>
@@ -26,7 +26,7 @@ theorem muxGo_aligned (c : MCfg) (aud : Nat → Bytes) (frs : List (Nat × List 
         | cons _ _ => simp at hlen
         | nil =>
           have := hlast fr (by simp)
-          simp [muxGo, this, muxFrame]
+          simp [muxGo, this.1, this.2, muxFrame]
     | cons fr2 rest2 =>
       cases els with
       | nil => simp at hlen
@@ -40,9 +40,10 @@ theorem muxGo_aligned (c : MCfg) (aud : Nat → Bytes) (frs : List (Nat × List 
 
 /-- EL longer than BL: the output is the aligned interleave of the BL with the first EL frames (trimmed to
 the BL length) and the command reports an error -/
-theorem muxGo_el_longer (c : MCfg) (aud : Nat → Bytes) (frs : List (Nat × List Item)) (els : List (List Out))
-    (hne : frs ≠ []) (hlen : frs.length < els.length) (hlast : ∀ fr, frs.getLast? = some fr → blBody c fr.2 ≠ []) :
-    muxGo c aud frs els = ((frs.zip els).flatMap (fun p => muxFrame c aud p.1 p.2), true) := by
+theorem muxGo_el_longer (c : MCfg) (aud : Nat → Bytes) (nFrames : Nat) (frs : List (Nat × List Item)) (els : List (List Out))
+    (hne : frs ≠ []) (hlen : frs.length < els.length)
+    (hlast : ∀ fr, frs.getLast? = some fr → fr.1 ≠ nFrames ∧ blBody c fr.2 ≠ []) :
+    muxGo c aud nFrames frs els = ((frs.zip els).flatMap (fun p => muxFrame c aud p.1 p.2), true) := by
   induction frs generalizing els with
   | nil => exact absurd rfl hne
   | cons fr rest ih =>
@@ -55,7 +56,7 @@ theorem muxGo_el_longer (c : MCfg) (aud : Nat → Bytes) (frs : List (Nat × Lis
         | nil => simp at hlen
         | cons e2 els'' =>
           have := hlast fr (by simp)
-          simp [muxGo, this, muxFrame]
+          simp [muxGo, this.1, this.2, muxFrame]
     | cons fr2 rest2 =>
       cases els with
       | nil => simp at hlen
@@ -311,27 +312,133 @@ theorem runs_flatten (el : List Item) : (runs el).flatMap (·.2) = el := by
   | nil => rfl
   | cons it rest => simpa [runs] using framesAux_flatten it.au [it] rest
 
+theorem muxAudFramesOk_of_lt (c : MCfg) (n : Nat) (frs : List (Nat × List Item)) (h : ∀ fr ∈ frs, fr.1 < n) :
+    muxAudFramesOk c n frs = true := by
+  induction frs with
+  | nil => rfl
+  | cons fr rest ih =>
+    have h1 := h fr (by simp)
+    cases rest with
+    | nil => simp [muxAudFramesOk]; omega
+    | cons fr2 rest2 =>
+      simp only [muxAudFramesOk, ih (fun x hx => h x (by simp [hx])), Bool.and_true, Bool.or_eq_true, decide_eq_true_eq]
+      exact Or.inr h1
+
+/-- a BL whose last frame buffer holds a kept NAL is not empty -/
+theorem frames_last_body_ne (c : MCfg) (bl : List Item)
+    (hlast : ∀ fr, (frames bl).getLast? = some fr → blBody c fr.2 ≠ []) : bl ≠ [] := by
+  intro h
+  subst h
+  exact hlast (0, []) (by simp [frames, framesAux]) (by simp [blBody])
+
+/-- a BL whose every NAL belongs to a frame and whose last frame buffer holds a kept NAL: every frame buffer
+carries the number of a frame -/
+theorem mux_frames_lt (c : MCfg) (nFrames : Nat) (bl : List Item) (hfr : ∀ it ∈ bl, it.au < nFrames)
+    (hlast : ∀ fr, (frames bl).getLast? = some fr → blBody c fr.2 ≠ []) : ∀ fr ∈ frames bl, fr.1 < nFrames := by
+  have hne := frames_last_body_ne c bl hlast
+  have hn : nFrames ≠ 0 := by
+    cases bl with
+    | nil => exact absurd rfl hne
+    | cons it _ => have := hfr it (by simp); omega
+  exact frames_label_lt nFrames bl hn hfr
+
 /-- mux with equal frame counts -/
-theorem mux_aligned (c : MCfg) (aud : Nat → Bytes) (conv : Bytes → Option Bytes) (bl el : List Item)
+theorem mux_aligned (c : MCfg) (aud : Nat → Bytes) (conv : Bytes → Option Bytes) (nFrames : Nat) (bl el : List Item)
     (els : List (List Out)) (hdrop : c.drop = false) (hels : elFrames c conv (runs el) = some els)
     (hlen : (frames bl).length = (runs el).length)
+    (hfr : ∀ it ∈ bl, it.au < nFrames)
     (hlast : ∀ fr, (frames bl).getLast? = some fr → blBody c fr.2 ≠ []) :
-    mux c aud conv bl el = some (((frames bl).zip els).flatMap (fun p => muxFrame c aud p.1 p.2), false) := by
+    mux c aud conv nFrames bl el = some (((frames bl).zip els).flatMap (fun p => muxFrame c aud p.1 p.2), false) := by
+  have hlt := mux_frames_lt c nFrames bl hfr hlast
   unfold mux
   rw [hdrop, seiStage_false, hels]
   simp only
-  rw [muxGo_aligned c aud (frames bl) els (by rw [elFrames_length c conv _ _ hels, hlen]) hlast]
+  rw [if_pos (muxAudFramesOk_of_lt c nFrames _ hlt)]
+  rw [muxGo_aligned c aud nFrames (frames bl) els (by rw [elFrames_length c conv _ _ hels, hlen])
+    (fun fr h => ⟨by have := hlt fr (List.mem_of_getLast? h); omega, hlast fr h⟩)]
 
-theorem mux_el_longer (c : MCfg) (aud : Nat → Bytes) (conv : Bytes → Option Bytes) (bl el : List Item)
+theorem mux_el_longer (c : MCfg) (aud : Nat → Bytes) (conv : Bytes → Option Bytes) (nFrames : Nat) (bl el : List Item)
     (els : List (List Out)) (hdrop : c.drop = false) (hels : elFrames c conv (runs el) = some els)
     (hlen : (frames bl).length < (runs el).length)
+    (hfr : ∀ it ∈ bl, it.au < nFrames)
     (hlast : ∀ fr, (frames bl).getLast? = some fr → blBody c fr.2 ≠ []) :
-    mux c aud conv bl el = some (((frames bl).zip els).flatMap (fun p => muxFrame c aud p.1 p.2), true) := by
+    mux c aud conv nFrames bl el = some (((frames bl).zip els).flatMap (fun p => muxFrame c aud p.1 p.2), true) := by
+  have hlt := mux_frames_lt c nFrames bl hfr hlast
   unfold mux
   rw [hdrop, seiStage_false, hels]
   simp only
-  rw [muxGo_el_longer c aud (frames bl) els (framesAux_ne_nil 0 [] bl)
-    (by rw [elFrames_length c conv _ _ hels]; exact hlen) hlast]
+  rw [if_pos (muxAudFramesOk_of_lt c nFrames _ hlt)]
+  rw [muxGo_el_longer c aud nFrames (frames bl) els (framesAux_ne_nil 0 [] bl)
+    (by rw [elFrames_length c conv _ _ hels]; exact hlen)
+    (fun fr h => ⟨by have := hlt fr (List.mem_of_getLast? h); omega, hlast fr h⟩)]
+
+/-! ### BL NALs behind the last slice: labelled with the frame count, left to `finalize`, not written -/
+
+theorem muxAudFramesOk_trailing (c : MCfg) (n : Nat) (frs : List (Nat × List Item)) (g : List Item)
+    (h : ∀ fr ∈ frs, fr.1 < n) : muxAudFramesOk c n (frs ++ [(n, g)]) = true := by
+  induction frs with
+  | nil => simp [muxAudFramesOk]
+  | cons fr rest ih =>
+    have h1 := h fr (by simp)
+    have ih' := ih (fun x hx => h x (by simp [hx]))
+    cases rest with
+    | nil =>
+      simp only [List.cons_append, List.nil_append, muxAudFramesOk] at ih' ⊢
+      simp [ih', h1]
+    | cons fr2 rest2 =>
+      simp only [List.cons_append, muxAudFramesOk] at ih' ⊢
+      simp [ih', h1]
+
+/-- equal frame counts, and one more BL frame buffer numbered `nFrames` at the end: that buffer is not written, and
+the last frame — closed by a NAL instead of by `finalize`, with no EL frame queued behind its own — goes without
+its EL frame, which is never written; no error -/
+theorem muxGo_trailing (c : MCfg) (aud : Nat → Bytes) (nFrames : Nat) (frs : List (Nat × List Item)) (els : List (List Out))
+    (g : List Item) (hne : frs ≠ []) (hlen : frs.length = els.length) :
+    muxGo c aud nFrames (frs ++ [(nFrames, g)]) els =
+      ((frs.zip (els.dropLast ++ [[]])).flatMap (fun p => muxFrame c aud p.1 p.2), false) := by
+  induction frs generalizing els with
+  | nil => exact absurd rfl hne
+  | cons fr rest ih =>
+    cases rest with
+    | nil =>
+      cases els with
+      | nil => simp at hlen
+      | cons e els' =>
+        cases els' with
+        | cons _ _ => simp at hlen
+        | nil => simp [muxGo, muxFrame]
+    | cons fr2 rest2 =>
+      cases els with
+      | nil => simp at hlen
+      | cons e els' =>
+        cases els' with
+        | nil => simp at hlen
+        | cons e2 els'' =>
+          have ih' := ih (e2 :: els'') (by simp) (by simpa using hlen)
+          simp only [List.cons_append] at ih' ⊢
+          simp only [muxGo, ih', List.dropLast_cons₂, List.cons_append, List.zip_cons_cons, List.flatMap_cons, muxFrame,
+            List.append_assoc]
+
+/-- **mux drops the BL NALs behind the last slice, and with them the last EL frame.**  `tail`: at least one NAL
+labelled with the frame count of the BL (what hevc_parser gives an AUD, prefix SEI, VPS/SPS/PPS … that follows the
+last slice), behind a BL whose every NAL belongs to a frame; as many EL frames as BL frame buffers.  The output is
+the aligned interleave of `bl` alone with the last EL frame left out: no NAL of `tail` is written (not even under
+--no-add-aud), the EL frame of the last picture is lost, and the exit status is 0. -/
+theorem mux_trailing_dropped (c : MCfg) (aud : Nat → Bytes) (conv : Bytes → Option Bytes) (nFrames : Nat)
+    (bl tail el : List Item) (els : List (List Out)) (hdrop : c.drop = false)
+    (hels : elFrames c conv (runs el) = some els) (hlen : (frames bl).length = (runs el).length)
+    (hn : nFrames ≠ 0) (hfr : ∀ it ∈ bl, it.au < nFrames)
+    (htail : ∀ it ∈ tail, it.au = nFrames) (hne : tail ≠ []) :
+    mux c aud conv nFrames (bl ++ tail) el =
+      some (((frames bl).zip (els.dropLast ++ [[]])).flatMap (fun p => muxFrame c aud p.1 p.2), false) := by
+  have hlt := frames_label_lt nFrames bl hn hfr
+  unfold mux
+  rw [hdrop, seiStage_false, hels]
+  simp only
+  rw [frames_append_tail nFrames bl tail hn hfr htail hne]
+  rw [if_pos (muxAudFramesOk_trailing c nFrames _ tail hlt)]
+  rw [muxGo_trailing c aud nFrames (frames bl) els tail (framesAux_ne_nil 0 [] bl)
+    (by rw [elFrames_length c conv _ _ hels, hlen])]
 
 /-- what demux returns for an EL-bound NAL, on (type, bytes) -/
 def unwrapEl (x : Nat × Bytes) : Nat × Bytes :=
@@ -352,12 +459,13 @@ theorem unwrap_wrap (it : Item) :
 frame labels the muxed stream is read back with, the EL file of demux holds exactly the NALs of the EL that was
 muxed in (every byte; the RPUs in place), and the BL file holds, frame by frame, the buffered BL NALs
 (`muxBlPart`: regenerated AUD first unless --no-add-aud, EOS/EOB moved behind the frame unless --eos-before-el). -/
-theorem mux_demux (c : MCfg) (aud : Nat → Bytes) (conv conv' : Bytes → Option Bytes) (bl el : List Item)
+theorem mux_demux (c : MCfg) (aud : Nat → Bytes) (conv conv' : Bytes → Option Bytes) (nFrames : Nat) (bl el : List Item)
     (out : List Out) (e : Bool) (mo : List Item) (s : Sinks) (annexb' : Bool)
     (hdrop : c.drop = false) (hd : c.discard = false) (hcs : c.convSet = false)
     (hlen : (frames bl).length = (runs el).length)
+    (hfr : ∀ it ∈ bl, it.au < nFrames)
     (hlast : ∀ fr, (frames bl).getLast? = some fr → blBody c fr.2 ≠ [])
-    (hmux : mux c aud conv bl el = some (out, e))
+    (hmux : mux c aud conv nFrames bl el = some (out, e))
     (hmo : mo.map payI = out.map pay) (hnd : NoDupFrom 0 (rpuAus mo))
     (hdemux : general { cfgDemux false with annexb := annexb' } conv' mo = some s) :
     e = false ∧
@@ -369,7 +477,7 @@ theorem mux_demux (c : MCfg) (aud : Nat → Bytes) (conv conv' : Bytes → Optio
   | some els =>
     rw [hels] at hp
     simp only [Option.map_some, Option.some.injEq] at hp
-    rw [mux_aligned c aud conv bl el els hdrop hels hlen hlast] at hmux
+    rw [mux_aligned c aud conv nFrames bl el els hdrop hels hlen hfr hlast] at hmux
     simp only [Option.some.injEq, Prod.mk.injEq] at hmux
     obtain ⟨hout, he⟩ := hmux
     refine ⟨he.symm, ?_⟩
